@@ -3,14 +3,14 @@ from vlib.engine import Job
 EXPLANATION = ("Bounded symbolic checking of the real compiled code (engine S): every double operation of bpp-core and of the harness is "
                "redirected to a z3 term builder; each feasible path of Constraints.h / Parameter.cpp / AutoParameter.cpp / ParameterList.cpp is explored "
                "with bounds, values and test points as solver variables, and each assertion is discharged for all values on that path.")
-FUNCTIONS = ["IntervalConstraint::{ctor,isCorrect,includes,isEmpty,getLimit,getAcceptedLimit,operator&,operator&=,operator>=}",
+FUNCTIONS = ["IntervalConstraint::{ctor,string ctor,readDescription,isCorrect,includes,isEmpty,getLimit,getAcceptedLimit,operator&,operator&=,operator>=}",
              "Parameter::{ctor,copy ctor,operator=,setValue,setConstraint,removeConstraint,setPrecision}",
              "AutoParameter::setValue", "ParameterList::{setParameterValue,setParametersValues,addParameter}",
              "AbstractParametrizable::setParameterValue"]
-BOUNDS = ("all real bounds/values/test points (REAL mode) and all IEEE doubles except NaN (FP mode, kernels 0-3); each bound finite or infinite; 4 open/closed flags; "
+BOUNDS = ("all real bounds/values/test points (REAL mode); bracket descriptions from a 2x5x5x2 token grammar and all IEEE doubles except NaN (FP mode, kernels 0-3); each bound finite or infinite; 4 open/closed flags; "
           "one inductive step from an arbitrary valid state (any precision >= 0) for 7 mutators; histories of construct (any precision >= 0) + 2 calls out of {setValue,setConstraint,removeConstraint,copy+assign back,assign from another constrained parameter} (quick) / 3 calls out of the first four (thorough); "
           "auto-correcting parameter: |x|<=1e3, bounds in [-1e3,1e3], width>=1e-9, exact real arithmetic")
-OUTSIDE = ["bracket-syntax parser (decided in C16/C17 engine-K jobs, not here)", "histories longer than 3 calls after construction", "non-zero precision of the auto-correcting parameter",
+OUTSIDE = ["descriptions outside the finite token grammar of job description-parser (number syntax itself: C17 recognisers), malformed descriptions", "histories longer than 3 calls after construction", "non-zero precision of the auto-correcting parameter",
            "rounding of lowerBound+1e-12 in the auto-correcting parameter (REAL mode is exact arithmetic)"]
 ASSUMPTIONS = ["z3 5.1.0 is sound for QF_NRA/QF_FP queries", "clang -O1 IR is the semantics of the code (no fast-math; FP contraction off)",
                "REAL mode: IEEE rounding is outside the claim", "message handler of AutoParameter set to null (output formatting is not the subject)"]
@@ -21,6 +21,7 @@ JOBS = [
     Job("fp-construct", "C01.cpp", ["HLO=2", "HHI=2", "FPMODE"], mode="fp", budget_s=120, desc="construction/copy over all IEEE doubles, NaN excluded"),
     Job("fp-intersection", "C01.cpp", ["HLO=1", "HHI=1", "FPMODE"], mode="fp", tiers=("thorough",), budget_s=1500, desc="intersection (both forms) over all IEEE doubles, NaN excluded"),
     Job("histories", "C01.cpp", ["HLO=4", "HHI=4", "NSTEPS=2"], thorough_defines=["HLO=4", "HHI=4", "NSTEPS=3", "OPMAX=3"], mode="real", budget_s=500, thorough_budget_s=3000, desc="construct (any precision >= 0) then 2 arbitrary calls out of setValue / setConstraint / removeConstraint / copy and assign back / assign from another constrained parameter with its own precision, incl. raising and precision-ignored ones (thorough: 3 calls without the last kind)"),
+    Job("description-parser", "C01.cpp", ["HLO=6", "HHI=6"], mode="real", budget_s=300, desc="bracket descriptions from a finite grammar (2 opening x 2 closing brackets x 5 lower tokens incl. -inf x 5 upper tokens incl. inf / +inf, equal and crossing bounds included) read by the string constructor or by readDescription into an existing interval with arbitrary symbolic bounds and flags: membership of a symbolic test point, bounds, flags and emptiness are those the description denotes; a parameter constructed with the parsed constraint raises iff its value is outside"),
     Job("auto", "C01.cpp", ["HLO=5", "HHI=5"], mode="real", budget_s=120, replay_tol=1e-16, desc="auto-correcting parameter: never raises, ends accepted and nearest"),
 ]
 
